@@ -17,11 +17,27 @@ def check(ctx):
     g = ctx.gen
     ctx.lean_gate()
     n = 800 if ctx.tier == "quick" else 12000
-    P = lambda fn, s, t, v, k, m=None, call=True: float(call_bs(torch, fn, s, t, v, k, s if m is None else m, call))
+    from pfhedge.nn import BSEuropeanOption, BSEuropeanBinaryOption, BSAmericanBinaryOption, BSLookbackOption
+    PF = lambda fn, s, t, v, k, m=None, call=True: float(call_bs(torch, fn, s, t, v, k, s if m is None else m, call))
+    T64 = lambda x: torch.tensor([x], dtype=torch.float64)
+
+    def PM(fn, s, t, v, k, m=None, call=True):
+        """the same price quoted by the pricing MODULE constructed with this strike / call flag"""
+        m = s if m is None else m
+        if fn == "european_price":
+            return float(BSEuropeanOption(call=call, strike=k).price(T64(s), T64(t), T64(v)))
+        if fn == "european_binary_price":
+            return float(BSEuropeanBinaryOption(call=call, strike=k).price(T64(s), T64(t), T64(v)))
+        if fn == "american_binary_price":
+            return float(BSAmericanBinaryOption(strike=k).price(T64(s), T64(m), T64(t), T64(v)))
+        return float(BSLookbackOption(strike=k).price(T64(s), T64(m), T64(t), T64(v)))
     items, metas = [], []
     for _ in range(n):
         s, t, v, k, m = gen_point(g, True)
-        case = {"s": s, "t": t, "v": v, "k": k, "m": m}
+        use_mod = g.chance(0.3)
+        P = PM if use_mod else PF
+        ctx.stats[f"via={'module' if use_mod else 'functional'}"] += 1
+        case = {"s": s, "t": t, "v": v, "k": k, "m": m, "via": "module" if use_mod else "functional"}
         ctx.case(case, True, tag="relations")
         ctx.traces += 1
         S = k * math.exp(s)
@@ -82,5 +98,5 @@ def check(ctx):
         if isinstance(m_, tuple) or not rel_close(got, m_, 1e-10, 1e-12):
             ctx.disagree("bs_price", case, got, m_)
     return ctx.finish(
-        rule="points of the open domain with running max >= spot (incl. equality and max exactly at the strike) and pairs at relative distances "
+        rule="prices quoted by the functional forms and (30 %) by the pricing modules built with the strike / call flag; points of the open domain with running max >= spot (incl. equality and max exactly at the strike) and pairs at relative distances "
              "{0.3, 0.05, 1e-3} for the monotonicity / convexity relations; every case non-trivial; distinct = sha1 of canonical case")
